@@ -701,6 +701,7 @@ func init() {
 			{"P", "kind analysis (dataflow to fixpoint on SSA) over every (buf, offs)-parametric function: values are constants, absolute positions (the offs parameter, len(buf), loop indices, offset results, positional fields) or scalars; a position may only be offset by constants/scalars, subtracted from a position (giving a length), compared with a position, used to index or slice the buffer, passed with the buffer, stored in positional fields or returned; comparisons position-vs-constant or position-vs-length, positions in multiplication/masks, positions leaking into non-positional outputs, constant or scalar buffer indices, field boundaries or returned offsets, and handing the whole buffer to a callee without a start offset are violations - by parametricity the outputs are then either shifted by k or unchanged", ruleC11},
 			{"BV", "offsets are applied to the buffer they were recorded in: no value loaded from PSIPMsg.RawMsg (the view re-based at the message start), directly or through slice expressions and phis, is passed to a function of the package — PField.Get, the signature helpers and the parsers all interpret their []byte argument with Buf-relative offsets", func(c *Ctx) { ruleBV(c, "BV") }},
 			{"OW", "saved positions stay inside their automaton: an unexported integer field that receives non-constant values (saved scan positions, the message start, the last header number) is read only by the functions that write it or by helpers called only from them; nothing else returns or uses such a cell, whose content is cleared or stale once the element completes", ruleOW},
+			{"QO", "comparison verdicts do not depend on where the operands sit (shared with C15-Q10): in the pairwise comparison functions every parser / accessor call receives one operand's buffer together with that operand's own offset, never the other's", func(c *Ctx) { ruleQ10(c, "QO") }},
 			{"M", "relocation of parsed URIs (the C18 rules M1, M2, M5, M6): every component rebased identically, refusal without mutation, one refusal decided by a difference of positions and every acceptance behind that test (the verdict does not depend on where the URI sits)", func(c *Ctx) { ruleM1(c); ruleM2(c); ruleM5(c); ruleM6(c) }},
 		},
 		Assumptions: []string{"16-bit field limit (65,535) as documented", "in-package (buf, offs) callees are analysed themselves"},
